@@ -561,6 +561,11 @@ func (f *FuncCtx) knownExternal(pkgPath string, fn *types.Func, recv *Val, args 
 			f.S.declare("bytes_equal", "(declare-fun bytes_equal ((Slice Int) (Slice Int)) Bool)")
 			return []Val{f.boolVal(fmt.Sprintf("(bytes_equal %s %s)", args[0].T, args[1].T))}, true
 		}
+	case "context":
+		if recv != nil && name == "Err" {
+			// ctx.Err() is modelled as a function of the context value; receiving from ctx.Done() implies it is non-nil
+			return f.pureApp("context.Err", sig, recv, args), true
+		}
 	case "time":
 		if recv != nil && sig.Results().Len() == 1 {
 			switch name {
